@@ -82,6 +82,38 @@ def gen_same_step_feed(rng: random.Random) -> dict:
     return c
 
 
+def gen_late_waiter(rng: random.Random) -> dict:
+    """A loop whose last body node emits a signal on every turn, and an observer that waits for that signal but whose other input comes
+    out of a chain of plain nodes: the observer becomes runnable for the first time in a step in which the emitter is running AGAIN. It
+    must wait for that run whatever the position of the two in the node list (listed first, listed last)."""
+    fn = gen._fn_node
+    limit = rng.randint(3, 5)
+    L = 5       # the loop turns every 3 steps (gate, step, fold: fold runs in steps 2, 5, 8 ...); the chain delivers `late` at the end of step 4
+    nodes = [{"name": "more", "kind": "ifelse", "params": [["n", None]], "targets": ["step", "__END__"], "body": {"b": "lt", "k": limit}, "defaultOpen": True},
+             fn("step", [["n", None]], ["m"], {"b": "sum", "k": 1}),
+             fn("fold", [["m", None]], ["n"], {"b": "first"}, emits=["folded"])]
+    prev = "x"
+    for j in range(L):
+        out = "late" if j == L - 1 else f"t{j}"
+        nodes.append(fn(f"s{j}", [[prev, None]], [out], {"b": "sum", "k": 1}))
+        prev = out
+    watch = fn("watch", [["n", None], ["late", None]], ["seen"], {"b": "tag", "t": "watch"}, waitFor=["folded"])
+    nodes = [watch] + nodes if rng.random() < 0.5 else nodes + [watch]
+    n = len(nodes)
+    return {"program": [{"name": "g0", "nodes": nodes, "bound": []}], "values": [["n", 0], ["x", rng.randint(0, 3)]], "cfg": {},
+            "orders": [list(range(n)), list(reversed(range(n)))]}
+
+
+def gen_awaitable_value(rng: random.Random) -> dict:
+    """A plain (non-async) function whose VALUE is an awaitable object: both runners hand that object to the consumers, neither awaits it."""
+    nodes = [{"name": "make", "kind": "fn", "params": [["x", None]], "dataOuts": ["h"], "body": {"b": "lazy", "t": "make"}, "syncBody": True},
+             {"name": "look", "kind": "fn", "params": [["h", None]], "dataOuts": ["seen"], "body": {"b": "tag", "t": "look"}}]
+    if rng.random() < 0.5:
+        nodes.append({"name": "pair", "kind": "fn", "params": [["h", None], ["x", None]], "dataOuts": ["both"], "body": {"b": "tag", "t": "pair"}})
+    rng.shuffle(nodes)
+    return {"program": [{"name": "g0", "nodes": nodes, "bound": []}], "values": [["x", rng.randint(0, 5)]], "cfg": {}, "pyOnly": True}
+
+
 class C02(RunProp):
     id = "C02"
     level = "proof"
@@ -100,6 +132,7 @@ class C02(RunProp):
         gens = gens * 2 + [lambda: gen_mutex_race(rng), lambda: gen.gen_map_node(rng, force="raise-multi"), lambda: gen_shared_target(rng), lambda: gen_same_step_feed(rng)]
         # the dedicated families are visited several times per run, whatever the seed
         forced = [lambda: gen_shared_target(rng), lambda: gen_mutex_race(rng), lambda: gen.gen_map_node(rng, force="raise-multi"), lambda: gen_same_step_feed(rng)] * 3
+        forced += [lambda: gen_awaitable_value(rng)] * 2 + [lambda: gen_late_waiter(rng)] * 3
         while True:
             c = forced.pop()() if forced else rng.choice(gens)()
             if continue_map_with_failing_items(c["program"]):
@@ -108,7 +141,7 @@ class C02(RunProp):
                 # Recorded as finding C02-F1 (exact input in findings/); kept out of the random stream.
                 continue
             n_sched = 4 if tier == "quick" else 10
-            yield {"program": c["program"], "values": c["values"], "cfg": c.get("cfg", {}),
+            yield {"program": c["program"], "values": c["values"], "cfg": c.get("cfg", {}), "pyOnly": bool(c.get("pyOnly")), "orders": c.get("orders", []),
                    "schedules": [["fifo", 0], ["lifo", 0]] + [["random", rng.randint(0, 10**6)] for _ in range(n_sched - 2)],
                    "limits": [None, 1, rng.choice([2, 3])], "perm_seed": rng.randint(0, 10**6)}
 
@@ -133,6 +166,12 @@ class C02(RunProp):
             for g in prog:
                 r.shuffle(g["nodes"])
             runs["sync:perm"] = impl.run_case(runner="sync", program=prog, root=None, values=case["values"], cfg=case["cfg"])
+            for oi, order in enumerate(case.get("orders", [])):
+                # dedicated families name the node orders that matter (the root graph's list, by index)
+                prog = copy.deepcopy(case["program"])
+                prog[-1]["nodes"] = [prog[-1]["nodes"][j] for j in order]
+                for kind in ("sync", "async"):
+                    runs[f"{kind}:perm{oi}"] = impl.run_case(runner=kind, program=prog, root=None, values=case["values"], cfg=case["cfg"])
         return {"runs": runs, "peak": peak}
 
     def oracle(self, case: dict, obs: Any) -> str | None:
@@ -143,7 +182,7 @@ class C02(RunProp):
         for name, o in runs.items():
             if o["status"] == "deadlock":
                 return f"{name}: the run never finished (idle loop, nothing parked)"
-            if name == "sync:perm" and ref["status"] == "failed":
+            if ":perm" in name and ref["status"] == "failed":
                 # which of two same-step failures is reported follows the node order; only the status is order-independent
                 if o["status"] != "failed":
                     return f"{name}: status {o['status']} differs from sync failed"
@@ -171,6 +210,8 @@ class C02(RunProp):
         return None
 
     def model(self, case: dict, driver: Any) -> Any:
+        if case.get("pyOnly"):
+            return None         # awaitable value objects are outside the model's value universe: judged by the oracle alone
         out = {}
         for runner in ("sync", "async"):
             r = driver.ask({"op": "run", "program": case["program"], "values": case["values"], "cfg": case["cfg"], "runner": runner})
@@ -178,9 +219,11 @@ class C02(RunProp):
         return out
 
     def compare(self, case: dict, i: Any, m: Any) -> str | None:
+        if case.get("pyOnly"):
+            return None
         runs = i["runs"]
         for name, o in runs.items():
-            if name == "sync:perm":
+            if ":perm" in name:
                 continue
             mm = m["sync"] if name == "sync" else m["async"]
             for k in ("status", "error", "raised", "values"):
